@@ -523,6 +523,40 @@ def r13_assigned_means_not_none_and_fresh_accumulators(idx, r):
                   msg=f"`{norm(c)[:80]}` starts a macroscopic accumulator from `{norm(v)[:50]}`, not from a freshly allocated array: the in-place `+=` of the summation then writes into a shared object")
 
 
+def r14_optional_library_used_and_options_forwarded(idx, r):
+    """(a) In the cross-section collections an optional argument (a second library for the multiplier, a weight ...) is tested for presence and
+    then USED: a branch guarded by `if multLib:` that never mentions multLib computes with something else - today that could only be the
+    primary library - and the optional library is silently ignored.  Branches that only warn or refuse are exempt.  (b) sibling calls that
+    build the macroscopic constants forward the caller's library type (pairing engine: no literal where the siblings pass the option through)."""
+    from ..astutil import optional_params
+    from ..pairing import pairing_rule
+    n = 0
+    for m in idx.modules.values():
+        if m.name not in ("armi.nuclearDataIO.xsCollections", "armi.nuclearDataIO.xsLibraries", "armi.nuclearDataIO.xsNuclides"):
+            continue
+        for f in m.all_funcs():
+            opt = optional_params(f.node)
+            for nd in walk_local(f.node):
+                if not isinstance(nd, ast.If):
+                    continue
+                t, nm = nd.test, None
+                if isinstance(t, ast.Name):
+                    nm = t.id
+                elif isinstance(t, ast.Compare) and isinstance(t.left, ast.Name) and len(t.ops) == 1 and isinstance(t.ops[0], ast.IsNot) and norm(t.comparators[0]) == "None":
+                    nm = t.left.id
+                if nm is None or nm not in opt:
+                    continue
+                if all(isinstance(x, ast.Raise) or (isinstance(x, ast.Expr) and isinstance(x.value, ast.Call) and norm(x.value.func).startswith("runLog.")) for x in nd.body):
+                    continue
+                n += 1
+                used = any(isinstance(x, ast.Name) and x.id == nm for st in nd.body for x in ast.walk(st))
+                r.require(used, f"{f.qualname}:{nm}:used-where-it-is-tested", f, node=nd,
+                          msg=f"the branch taken when `{nm}` is given never mentions `{nm}`: the optional argument is ignored and the computation falls back on the primary data")
+    if n < 2:
+        raise AnchorMissing("optional-argument branches in the cross-section collections")
+    pairing_rule(idx, r, ["armi.nuclearDataIO.xsCollections", "armi.nuclearDataIO.xsLibraries", "armi.nuclearDataIO.xsNuclides", "armi.nuclearDataIO.nuclearFileMetadata"], 30)
+
+
 def run(idx, chk):
     chk.explanation = (
         "C10: metadata/collection merges never write into their inputs and raise on conflicts; direct stores into the target library happen only "
@@ -555,3 +589,5 @@ def run(idx, chk):
                  necessary="a directory holding ISOxx and ISOxx-<suffix> merges to the suffixed data, without a refused double merge")
     chk.run_rule("R10.13", "a PMATRX-type record is 'assigned' iff it is not None; macroscopic accumulators start as fresh arrays", lambda r: r13_assigned_means_not_none_and_fresh_accumulators(idx, r), floor=3,
                  necessary="conflicting data are refused whatever their values; macroscopic sums are the density-weighted sums of the micros for every composition")
+    chk.run_rule("R10.14", "an optional library/weight that is tested for presence is used in that branch; sibling calls forward the library type", lambda r: r14_optional_library_used_and_options_forwarded(idx, r), floor=3,
+                 necessary="macroscopic constants are the density-weighted sums over the libraries the caller named, for the kind of data the caller named")
